@@ -403,6 +403,15 @@ struct Resolver {
     file_to_namespace: HashMap<FileOrLib, NamespaceID>,
 }
 
+/// Is this expression a function literal, possibly wrapped in redundant parentheses?
+fn is_function_literal(expr: &ParserExpression) -> bool {
+    match &expr.kind {
+        sylt_parser::ExpressionKind::Function { .. } => true,
+        sylt_parser::ExpressionKind::Parenthesis(inner) => is_function_literal(inner),
+        _ => false,
+    }
+}
+
 impl Resolver {
     fn new(namespace_to_file: HashMap<NamespaceID, FileOrLib>) -> Self {
         let file_to_namespace = namespace_to_file
@@ -864,7 +873,7 @@ impl Resolver {
                 );
                 for (name, field) in parser_fields.iter() {
                     let ss = self.stack.len();
-                    if matches!(field.kind, EK::Function { .. }) {
+                    if is_function_literal(field) {
                         self.stack.push(("self".to_string(), self_var));
                     }
                     fields.push((name.clone(), self.expression(field)?));
@@ -950,7 +959,7 @@ impl Resolver {
                     self.stack.clear();
                     let var = self.lookup(&ident.name, span)?;
                     (value, var)
-                } else if matches!(value.kind, sylt_parser::ExpressionKind::Function { .. }) {
+                } else if is_function_literal(value) {
                     // Function, push the var before!
                     let var = self.push_var(ident, *kind);
                     let value = self.expression(value)?;
